@@ -1,6 +1,7 @@
 import PySMT.Proofs.C06Infix3
 import PySMT.Proofs.C06Examples
 import PySMT.Proofs.BuildAgree
+import PySMT.Proofs.C06More
 /-!
 # C06 — derived constructors and infix operators: the property theorems
 
@@ -22,6 +23,20 @@ Weaker-than-stated theorems (`_partial`):
   build the all-zero / sign-filled vector the mathematical shift would give: the code refuses
   it with `PysmtValueError` ("Cannot express k in w bits", the documented domain of `BV`),
   see `shiftInt_refused`. The theorem covers `0 ≤ k < 2^w`.
+
+Theorems that only restate a definition (kept because the property lists every constructor /
+method): `ite/equals/function/select/store/array/strings_denote`, `call_denotes` (the evaluator's
+clause of the node the constructor builds), `infix_direct(2)_denotes` (the dispatch; the semantic
+versions are `direct_methods_denote`, `select_store_methods_denote`).
+
+Not covered by any theorem: `Pow` (no semantics in `Core/Eval`; its constant folding is checked
+by the harness only), `Symbol`/`FreshSymbol`/`normalize` (C04), the `@assert_infix_enabled`
+decorators (infix notation is assumed enabled).
+
+Hypotheses to be aware of: bit-vector theorems quantify over values `ofBV x` of one width `w`; where
+the code reads `bv_width()` the theorems either take `bvWidth s = .ok w` or (the `typed_…` versions)
+`s.wt`, `compOK s` and `s.typeOf = some (.bv w)` (`bvWidth_of_typeOf`); that a well-typed term of sort
+`BV w` evaluates to a width-`w` value is not proved here.
 -/
 namespace PySMT.Props.C06
 open PySMT PySMT.Mk PySMT.Mk.Infix PySMT.C06
@@ -385,7 +400,9 @@ theorem infix_literal_constants (n : Int) (q : Rat) (v : Bool) (w : Nat) :
     prepareArg (.i n) (.bv w) = Mk.BV n w :=
   ⟨rfl, rfl, rfl, rfl, rfl⟩
 
-/-- one- and two-parameter methods that call the manager function of their own name -/
+/-- one- and two-parameter methods that call the manager function of their own name: these two theorems
+only restate the dispatch (`run … = call name …`); the semantic statements are `direct_methods_denote`
+and `select_store_methods_denote` -/
 theorem infix_direct_denotes {name p F : String}
     (hl : Gen.Infix.table.lookup name = some ⟨[p], false, [.ret (.mgr F [.self, .var p])]⟩)
     (a : Term) (b : Arg) : Infix.run Gen.Infix.table name a [b] = call name [.t a, b] :=
@@ -453,13 +470,193 @@ theorem getitem_index_denotes (I : Interp) {a t : Term} {k : Int} {w : Nat}
     (x : BitVec w) (ha : eval I a = ofBV x) : eval I t = ofBV (x.extractLsb' k.toNat 1) :=
   PySMT.C06.getitem_index_denotes I h x ha
 
-/-- `f(a1, …, an)` -/
+/-- `f(a1, …, an)`: the application node (its value is the evaluator's clause for `function`) -/
 theorem call_denotes (I : Interp) (f : Sym) (as : List Term) (hp : f.params ≠ [])
     (hl : as.length = f.params.length) (hne : as ≠ []) {t : Term}
     (h : Infix.run Gen.Infix.table "__call__" (Term.sym f) (as.map Arg.t) = .ok t) :
     eval I t = I.fn f (as.map (eval I)) := by
   rw [call_method f as hp hl] at h
   exact function_denotes I h hne
+
+/-! ## additions after the independent review (rev-b): totality, domains, literals, typing -/
+
+/-- **Div, total**: for every value of the divisor — zero included, where SMT-LIB leaves the
+result to the interpretation (`I.div0r` / `I.div0i`) — also under the rewrite into
+`Times(l, Real(1/c))`, which only fires for a non-zero constant `c` -/
+theorem div_total (I : Interp) {a b t : Term} (h : Mk.Div a b = .ok t) :
+    (∀ x y : Rat, eval I a = .r x → eval I b = .r y → eval I t = Sem.div I (.r x) (.r y)) ∧
+    (∀ x y : Int, eval I a = .i x → eval I b = .i y → eval I t = Sem.div I (.i x) (.i y)) :=
+  PySMT.C06.div_total I h
+
+/-- **width lemma**: `FNode.bv_width()` of a well-typed term of sort `BV w` is `w`. (`compOK`: every
+`bvComp` node carries the payload `(1,)` its constructor stores; `Term.wt` ignores that payload while
+`bv_width()` reads it.) It discharges every `bvWidth … = .ok w` hypothesis of this file: `typed_width_theorems`. -/
+theorem bvWidth_of_typeOf {t : Term} (hwt : t.wt = true) (hc : PySMT.BuildAgree.compOK t = true) {w : Nat}
+    (hty : t.typeOf = some (.bv w)) : Mk.bvWidth t = .ok w :=
+  PySMT.C06.bvWidth_of_typeOf hwt hc hty
+
+/-- `BVSMod`, extensions, shifts by an integer, `n - x`, default-end extraction — from typing, without
+syntactic-width hypotheses, with the domains of the integer parameters in the conclusion -/
+theorem typed_width_theorems (I : Interp) {s : Term} {w : Nat} (hwt : s.wt = true)
+    (hc : PySMT.BuildAgree.compOK s = true) (hty : s.typeOf = some (.bv w)) (x : BitVec w)
+    (hs : eval I s = ofBV x) :
+    (∀ {t r : Term} (y : BitVec w), Mk.BVSMod s t = .ok r → eval I t = ofBV y →
+      eval I r = ofBV (BitVec.smod x y)) ∧
+    (∀ {t : Term} {k : Int}, Mk.BVZExt s k = .ok t → 0 ≤ k ∧ eval I t = ofBV (x.setWidth (w + k.toNat))) ∧
+    (∀ {t : Term} {k : Int}, Mk.BVSExt s k = .ok t → 0 ≤ k ∧ eval I t = ofBV (x.signExtend (w + k.toNat))) ∧
+    (∀ (o : ShiftOp) {t : Term} {k : Int}, o.mk s (.i k) = .ok t →
+      0 ≤ k ∧ k < 2 ^ w ∧ eval I t = ofBV (o.fn x k.toNat)) ∧
+    (∀ (o : ShiftOp) (k : Int), (k < 0 ∨ k ≥ 2 ^ w) → o.mk s (.i k) = .error .value) ∧
+    (∀ {t : Term} {n : Int}, Infix.run Gen.Infix.table "__rsub__" s [.i n] = .ok t →
+      0 ≤ n ∧ n < 2 ^ w ∧ eval I t = ofBV (BitVec.ofNat w n.toNat - x)) ∧
+    (∀ {t : Term} {lo : Int}, Mk.BVExtract s lo none = .ok t →
+      0 ≤ lo ∧ lo < w ∧ eval I t = ofBV (x.extractLsb' lo.toNat (w - lo.toNat))) :=
+  PySMT.C06.typed_width_theorems I hwt hc hty x hs
+
+/-- `BVExtract(f, s)` with the default end -/
+theorem bvExtract_default_denotes (I : Interp) {f t : Term} {s : Int} (h : Mk.BVExtract f s none = .ok t)
+    {w : Nat} (hw : bvWidth f = .ok w) (x : BitVec w) (hf : eval I f = ofBV x) :
+    0 ≤ s ∧ s < w ∧ eval I t = ofBV (x.extractLsb' s.toNat (w - s.toNat)) :=
+  bvExtract_default I h hw x hf
+
+/-- slices outside `0 ≤ start ≤ end`, or longer than the operand, are refused -/
+theorem bvExtract_refused (f : Term) (s e : Int) (w : Nat) (hw : bvWidth f = .ok w)
+    (hbad : s < 0 ∨ e < s ∨ e - s + 1 > w) : Mk.BVExtract f s (some e) = .error .assertion :=
+  PySMT.C06.bvExtract_refused f s e w hw hbad
+
+/-- negative rotation steps / extensions are refused; a successful rotation has `0 ≤ k ≤ width` -/
+theorem rotate_extend_domain (f : Term) (k : Int) :
+    (∀ w, bvWidth f = .ok w → k < 0 → Mk.BVRol f k = .error .type ∧ Mk.BVRor f k = .error .type ∧
+      Mk.BVZExt f k = .error .type ∧ Mk.BVSExt f k = .error .type) ∧
+    (∀ t, Mk.BVRol f k = .ok t ∨ Mk.BVRor f k = .ok t → ∃ w, f.typeOf = some (.bv w) ∧ 0 ≤ k ∧ k ≤ w) := by
+  refine ⟨fun w hw hk => rotate_extend_refused f k w hw hk, fun t h => ?_⟩
+  rcases h with h | h
+  · exact rotate_domain (Or.inl rfl) h
+  · exact rotate_domain (Or.inr rfl) h
+
+/-- `a[lo:]` -/
+theorem getitem_default_end_denotes (I : Interp) {a t : Term} {lo : Option Int} {w : Nat}
+    (h : Infix.run Gen.Infix.table "__getitem__" a [.slice lo none] = .ok t)
+    (hw : bvWidth a = .ok w) (x : BitVec w) (ha : eval I a = ofBV x) :
+    0 ≤ lo.getD 0 ∧ lo.getD 0 < w ∧ eval I t = ofBV (x.extractLsb' (lo.getD 0).toNat (w - (lo.getD 0).toNat)) :=
+  getitem_default_end I h hw x ha
+
+/-- `a[lo:hi]` only succeeds for `0 ≤ lo ≤ hi` (the domain hidden by `lo.getD 0` / `toNat` in `getitem_denotes`) -/
+theorem getitem_domain {a t : Term} {lo : Option Int} {hi : Int}
+    (h : Infix.run Gen.Infix.table "__getitem__" a [.slice lo (some hi)] = .ok t) :
+    0 ≤ lo.getD 0 ∧ lo.getD 0 ≤ hi := by
+  rw [run_getitem_slice] at h
+  unfold getitemModel at h
+  cases hty : a.typeOf with
+  | none => rw [hty] at h; cases h
+  | some τ =>
+    rw [hty] at h
+    cases hb : τ.isBv
+    · simp [hb] at h
+    · simp only [hb, if_true] at h
+      obtain ⟨_, _, hr⟩ := PySMT.BuildAgree.extract_agree h
+      exact ⟨by omega, by omega⟩
+
+/-- **literal right operand** (`x + 5`, `3 * x`, `b & True`, `v << 3`, `i.Equals(2)` …): through a
+binary entry of the regenerated table, the call with the Python literal `lit` is the call with the
+constant `c` that `_infix_prepare_arg` builds at the receiver's sort, `c` denotes the literal
+(`LitDenotes`: `.i n` at Int, `.r n` / `.r q` at Real, `.b v` at Bool, and at `BV w` the value
+`BitVec.ofNat w n` together with `0 < w ∧ 0 ≤ n < 2^w`), and the formula denotes `pyOp name` of
+the receiver and `c` -/
+theorem infix_literal_denotes (I : Interp) {name p : String} {f g : Option String}
+    (hl : Gen.Infix.table.lookup name = some ⟨[p], false, [.ret (.infix .self (.var p) f g)]⟩)
+    {a t : Term} {lit : Arg} (h : Infix.run Gen.Infix.table name a [lit] = .ok t) :
+    ∃ kn kb τ c, pyOp name = some (kn, kb) ∧ a.typeOf = some τ ∧ prepareArg lit τ = .ok c ∧
+      LitDenotes I lit τ c ∧
+      (τ.isBv = true → ∃ k, kb = some k ∧ k.Denotes I a c t) ∧
+      (τ.isBv = false → ∃ k, kn = some k ∧ k.Denotes I a c t) :=
+  PySMT.C06.infix_literal_denotes I hl h
+
+/-- `n - a` (Int) and `q - a` (Real) for Python numbers on the left -/
+theorem rsub_literal_denotes (I : Interp) {a t : Term} :
+    (∀ {n : Int} (x : Int), Infix.run Gen.Infix.table "__rsub__" a [.i n] = .ok t → a.typeOf = some .int →
+      eval I a = .i x → eval I t = .i (n - x)) ∧
+    (∀ {lit : Arg} {q : Rat} (x : Rat), ((∃ n : Int, lit = .i n ∧ q = (n : Rat)) ∨ lit = .q q) →
+      Infix.run Gen.Infix.table "__rsub__" a [lit] = .ok t → a.typeOf = some .real →
+      eval I a = .r x → eval I t = .r (q - x)) :=
+  ⟨fun x h hty ha => rsub_int_literal I h hty x ha, fun x hlit h hty ha => rsub_real_literal I hlit h hty x ha⟩
+
+/-- the direct methods of `FNode`, semantically (instead of `run … = call name …`) -/
+theorem direct_methods_denote (I : Interp) {a t : Term} {w : Nat} (x : BitVec w) (ha : eval I a = ofBV x) :
+    (∀ k, Infix.run Gen.Infix.table "BVRol" a [.i k] = .ok t →
+      (∃ w', a.typeOf = some (.bv w') ∧ 0 ≤ k ∧ k ≤ w') ∧ eval I t = ofBV (x.rotateLeft k.toNat)) ∧
+    (∀ k, Infix.run Gen.Infix.table "BVRor" a [.i k] = .ok t →
+      (∃ w', a.typeOf = some (.bv w') ∧ 0 ≤ k ∧ k ≤ w') ∧ eval I t = ofBV (x.rotateRight k.toNat)) ∧
+    (∀ k, a.wt = true → PySMT.BuildAgree.compOK a = true → a.typeOf = some (.bv w) →
+      Infix.run Gen.Infix.table "BVZExt" a [.i k] = .ok t → 0 ≤ k ∧ eval I t = ofBV (x.setWidth (w + k.toNat))) ∧
+    (∀ k, a.wt = true → PySMT.BuildAgree.compOK a = true → a.typeOf = some (.bv w) →
+      Infix.run Gen.Infix.table "BVSExt" a [.i k] = .ok t → 0 ≤ k ∧ eval I t = ofBV (x.signExtend (w + k.toNat))) ∧
+    (∀ k, Infix.run Gen.Infix.table "BVRepeat" a [.i k] = .ok t →
+      1 ≤ k ∧ eval I t = ofBV (BitVec.replicate k.toNat x)) ∧
+    (∀ s e, Infix.run Gen.Infix.table "BVExtract" a [.i s, .i e] = .ok t →
+      0 ≤ s ∧ s ≤ e ∧ eval I t = ofBV (x.extractLsb' s.toNat (e.toNat - s.toNat + 1))) :=
+  PySMT.C06.direct_methods_denote I x ha
+
+theorem select_store_methods_denote (I : Interp) {a i v t : Term} :
+    (Infix.run Gen.Infix.table "Select" a [.t i] = .ok t → eval I t = (eval I a).select (eval I i)) ∧
+    (Infix.run Gen.Infix.table "Store" a [.t i, .t v] = .ok t → eval I t = (eval I a).store (eval I i) (eval I v)) :=
+  method_select_store I
+
+/-! ### constructors whose meaning is the evaluator's clause for their node (stated by name because
+the property lists every constructor; these theorems say only that the constructor builds the node
+of its name with the arguments in order) -/
+
+theorem ite_denotes (I : Interp) {c a b t : Term} (h : Mk.Ite c a b = .ok t) :
+    eval I t = if truth I c then eval I a else eval I b := ite_eval I h
+
+theorem equals_denotes (I : Interp) {a b t : Term} (h : Mk.Equals a b = .ok t) :
+    eval I t = .b (decide (eval I a = eval I b)) := equals_eval I h
+
+theorem function_denotes (I : Interp) {f : Sym} {as : List Term} {t : Term} (h : Mk.Function f as = .ok t)
+    (hne : as ≠ []) : eval I t = I.fn f (as.map (eval I)) := PySMT.C06.function_denotes I h hne
+
+theorem select_denotes (I : Interp) {a i t : Term} (h : Mk.Select a i = .ok t) :
+    eval I t = (eval I a).select (eval I i) := select_denotes' I h
+
+theorem store_denotes (I : Interp) {a i v t : Term} (h : Mk.Store a i v = .ok t) :
+    eval I t = (eval I a).store (eval I i) (eval I v) := store_denotes' I h
+
+/-- `Array(idx, d, assign)`: the array value with default `d` and the pairs of `assign` (in the order
+the code visits them) whose value is not the default -/
+theorem array_denotes (I : Interp) {idx : Ty} {d t : Term} {assign : List (Term × Term)}
+    (h : Mk.Array idx d assign = .ok t) :
+    eval I t = Sem.arrayValue idx (eval I d) ((keptPairs d assign).map (eval I)) := array_denotes' I h
+
+/-- `BV(n, w)`, success case -/
+theorem bv_denotes (I : Interp) {n : Int} {w : Nat} (hw : 0 < w) (h0 : 0 ≤ n) (h1 : n < 2 ^ w) :
+    Mk.BV n w = .ok (Term.bvc n.toNat w) ∧ eval I (Term.bvc n.toNat w) = ofBV (BitVec.ofNat w n.toNat) ∧
+      (BitVec.ofNat w n.toNat).toNat = n.toNat := bv_denotes' I hw h0 h1
+
+theorem strings_denote (I : Interp) {a b c t : Term} {as : List Term} :
+    (Mk.StrLength a = .ok t → eval I t = .i (Sem.sOf (eval I a)).length) ∧
+    (Mk.StrConcat as = .ok t → 2 ≤ as.length ∧ eval I t = Sem.mkS ((as.map (eval I)).flatMap Sem.sOf)) ∧
+    (Mk.StrContains a b = .ok t → eval I t = .b (Sem.strContains (Sem.sOf (eval I a)) (Sem.sOf (eval I b)))) ∧
+    (Mk.StrIndexOf a b c = .ok t →
+      eval I t = .i (Sem.strIndexOf (Sem.sOf (eval I a)) (Sem.sOf (eval I b)) (Sem.iOf (eval I c)))) ∧
+    (Mk.StrReplace a b c = .ok t →
+      eval I t = Sem.mkS (Sem.strReplace (Sem.sOf (eval I a)) (Sem.sOf (eval I b)) (Sem.sOf (eval I c)))) ∧
+    (Mk.StrSubstr a b c = .ok t →
+      eval I t = Sem.mkS (Sem.strSubstr (Sem.sOf (eval I a)) (Sem.iOf (eval I b)) (Sem.iOf (eval I c)))) ∧
+    (Mk.StrPrefixOf a b = .ok t → eval I t = .b (Sem.isPrefix (Sem.sOf (eval I a)) (Sem.sOf (eval I b)))) ∧
+    (Mk.StrSuffixOf a b = .ok t →
+      eval I t = .b (Sem.isPrefix (Sem.sOf (eval I a)).reverse (Sem.sOf (eval I b)).reverse)) ∧
+    (Mk.StrToInt a = .ok t → eval I t = .i (Sem.strToInt (Sem.sOf (eval I a)))) ∧
+    (Mk.IntToStr a = .ok t → eval I t = Sem.mkS (Sem.intToStr (Sem.iOf (eval I a)))) ∧
+    (Mk.StrCharAt a b = .ok t → eval I t = Sem.mkS (Sem.strAt (Sem.sOf (eval I a)) (Sem.iOf (eval I b)))) :=
+  PySMT.C06.strings_denote I
+
+/-- n-ary `BVConcat` with `BitVec.++` (operands of arbitrary widths; `SomeBV = Σ w, BitVec w`,
+`SomeBV.append s u = ⟨s.1 + u.1, s.2 ++ u.2⟩`): `((x₀ ++ x₁) ++ x₂) ++ …` -/
+theorem bvConcat_append_denotes (I : Interp) {a b : Term} {rest : List Term} {t : Term}
+    (h : Mk.BVConcat (a :: b :: rest) = .ok t) (x y : SomeBV) (zs : List SomeBV)
+    (ha : eval I a = x.val) (hb : eval I b = y.val) (hr : rest.map (eval I) = zs.map SomeBV.val) :
+    eval I t = (zs.foldl SomeBV.append (x.append y)).val :=
+  bvConcat_append I h x y zs ha hb hr
 
 /-! ## consolidation: the three models of the constructors agree where they overlap -/
 
@@ -526,6 +723,24 @@ example : Mk.BVRepeat xv 1 = .ok xv := rfl
 example : Gen.Infix.table.lookup "__add__" =
     some ⟨["right"], false, [.ret (.infix .self (.var "right") (some "Plus") (some "BVAdd"))]⟩ := by rfl
 example : pyOp "__add__" = some (some .plus, some (.bv .add)) := rfl
+-- `div_total`: a division by the constant zero is built (and left to the interpretation)
+private def xr : Term := Term.var "r" .real
+private def hxr : xr.typeOf = some .real := typeOf_var _ _
+example : Mk.Div xr (Term.real 0) = .ok (.node .div [xr, Term.real 0] .none) := by
+  have hc := create2 .div xr (Term.real 0) .none .real .real hxr (typeOf_realc 0) (by decide)
+  simpa [Mk.Div, Term.real] using hc
+-- `infix_literal_denotes`: `x + 5` on an Int receiver
+example : Infix.run Gen.Infix.table "__add__" xi [.i 5] = .ok (.node .plus [xi, Term.int 5] .none) := by
+  rw [run_binary _ "__add__" "right" (some "Plus") (some "BVAdd") xi (.i 5) (by rfl),
+    applyInfix_literal hxi (.i 5) _ (prepare_int 5)]
+  unfold applyInfix
+  rw [hxi]
+  exact create2 .plus xi (Term.int 5) .none .int .int hxi (typeOf_intc 5) (by decide)
+-- `bvWidth_of_typeOf` / `typed_width_theorems`: a bit-vector symbol is well-typed and `compOK`
+example : xv.wt = true ∧ PySMT.BuildAgree.compOK xv = true ∧ xv.typeOf = some (.bv 4) := by
+  refine ⟨?_, ?_, hxv⟩
+  · simp only [xv, Term.var, Term.sym, Term.wt, List.map_nil, List.all_nil, Bool.true_and]; rfl
+  · simp only [xv, Term.var, Term.sym, PySMT.BuildAgree.compOK, List.map_nil, List.all_nil, Bool.true_and]; rfl
 end examples
 
 end PySMT.Props.C06
